@@ -409,6 +409,8 @@ class NetworkService(ModelElement):
         node_id = self.topo.graph_model.find_connection_point_by_name(parent_node_id=self.node_id,
                                                                       iname=name)
         self.topo.graph_model.remove_cp_and_links(node_id=node_id)
+        # remove from interface list as well
+        self._interfaces = list(filter((lambda x: x.node_id != node_id), self._interfaces))
 
     def peer(self, ns, **kwargs) -> None:
         """
